@@ -26,7 +26,7 @@ vars == <<tid, l, verdict>>
 T == Traces[tid]
 
 (* the machine's variables are bound to the observation; only the clause operators are used *)
-RE == INSTANCE ResponseEmit WITH RenderSetsType <- FALSE, BodilessByLine <- FALSE, ForgetCloseOnFault <- FALSE, StaleLengthOnRenderFault <- FALSE, StatusStringAsIs <- FALSE,
+RE == INSTANCE ResponseEmit WITH RenderSetsType <- FALSE, BodilessByLine <- FALSE, ForgetCloseOnFault <- FALSE, StaleLengthOnRenderFault <- FALSE, StatusStringAsIs <- FALSE, ReturnOnDisconnect <- FALSE,
           c0 <- T.c, c <- T.c, pc <- "done", ev <- T.ev, k <- 0, hand <- -1, sends <- 0,
           begun <- T.begun, closes <- T.closes, raised <- T.raised, sendFailed <- T.sendFailed
 
